@@ -12,7 +12,9 @@ TIE = {"Api": ["h_api_handler_postAction", "h_api_handler_processUpdateStatus", 
                "h_api_client_StartAsync", "h_api_client_Start", "h_api_client_Stop", "h_api_client_Retry",
                "h_api_client_UpdateStatus", "h_api_client_ToggleSuspend", "h_api_client_UpdateDAG", "h_api_client_Rename",
                "h_api_client_escapeArg", "h_api_model_CorrectRunningStatus", "h_api_jsondb_Update", "h_api_cmd_removeQuotes",
-               "h_api_dagstore_Rename", "h_api_dagstore_UpdateSpec", "h_api_flagstore_ToggleSuspend", "h_api_jsondb_FindByRequestID"]}
+               "h_api_dagstore_Rename", "h_api_dagstore_UpdateSpec", "h_api_flagstore_ToggleSuspend", "h_api_jsondb_FindByRequestID"],
+       # every guard of the API reads the live run's answer on its status socket: Agent.HandleHTTP / Agent.Status
+       "Agent": ["h_agent_Agent_HandleHTTP", "h_agent_Agent_Status"]}
 
 POOL = ["d0", "d1", "d2", "d3"]
 
@@ -296,6 +298,9 @@ def monitor(op, code, before, after, live):
 
 
 def run(chk, replay):
+    if replay and "agent_case" in json.load(open(replay)).get("case", {}):
+        import p_c08
+        p_c08.liveness_stream(chk, "C20", 0, only=json.load(open(replay))["case"]["agent_case"]); return
     chk.trusted = common.TRUSTED_COMMON + ["the stub executable (records argv) and the fake live run (sock.Server answering `running`)"]
     chk.assumptions = ["request ids are unique among a DAG's runs (the model takes the newest match, as the code does)",
                        "parameters handed over by the API contain no CR/LF (escapeArg rewrites them; outside the documented syntax, F25)",
@@ -384,6 +389,9 @@ def run(chk, replay):
     if dis == 0:
         chk.oblige("correspondence:api (response class + full world dump after every action, impl = model)", True)
     chk.stats = {"cases": len(cases), "action@state": dict(sorted(dist.items())), "codes": codes}
+    if not replay:
+        import p_c08
+        p_c08.liveness_stream(chk, "C20", 30 if chk.tier == "quick" else 300)
     chk.rule = ("2-3 DAGs (valid / cyclic / unparsable / empty definition), 0-3 recorded runs each (finished, failed, canceled, "
                 "recorded-as-running), live run on or off (toggled mid-sequence); 8-12 actions per case over all 8 action kinds + missing + "
                 "unknown action, request id / step present, foreign, unknown or empty; through the generated router or straight into the "
